@@ -208,10 +208,14 @@ fn build_gi(lines: &[String]) -> Result<Gitignore, String> {
 }
 
 /// The reference for "ignored under gitignore semantics": the `ignore` crate's single-path decision
-/// `Gitignore::matched` asked for the path and then for each parent directory up to (not including) the
-/// root; the closest decision wins. (`matched_path_or_any_parents` does the same but also asks about the
-/// empty path, which patterns like `*/` match; the differences are counted.)
+/// `Gitignore::matched` asked for the path and for each parent directory up to (not including) the root;
+/// the path is ignored when some level is decided "ignore" (git: a negation cannot re-include a file below
+/// an excluded directory).
 fn ref_ignored(gi: &Gitignore, p: &[String], is_dir: bool) -> bool {
+    (1..=p.len()).rev().any(|n| gi.matched(Path::new(&p[..n].join("/")), is_dir || n < p.len()).is_ignore())
+}
+/// The nearest-decision walk (`matched_path_or_any_parents` without its step onto the empty path).
+fn ref_nearest(gi: &Gitignore, p: &[String], is_dir: bool) -> bool {
     let mut d = is_dir;
     for n in (1..=p.len()).rev() {
         let m = gi.matched(Path::new(&p[..n].join("/")), d);
@@ -238,7 +242,7 @@ fn run_gi(it: &GiItem, out: &mut Buf) {
             return;
         }
     };
-    let mut exp: Vec<(u8, bool)> = vec![];
+    let mut exp: Vec<(u8, bool, bool)> = vec![];
     let mut any_true = false;
     let mut any_parent = false;
     for (p, d) in &it.paths {
@@ -246,14 +250,17 @@ fn run_gi(it: &GiItem, out: &mut Buf) {
         let r = catch(|| {
             let m = gi.matched(Path::new(&joined), *d);
             let code = if m.is_none() { 0u8 } else if m.is_ignore() { 1 } else { 2 };
-            (code, ref_ignored(&gi, p, *d), gi.matched_path_or_any_parents(Path::new(&joined), *d).is_ignore())
+            (code, ref_ignored(&gi, p, *d), ref_nearest(&gi, p, *d), gi.matched_path_or_any_parents(Path::new(&joined), *d).is_ignore())
         });
-        let Ok((code, r, crate_walk)) = r else {
+        let Ok((code, r, near, crate_walk)) = r else {
             out.count("gi_crate_panic", 1);
             return;
         };
-        if crate_walk != r {
-            out.count("gi_paths_where_matched_path_or_any_parents_differs_(empty_path_quirk)", 1);
+        if crate_walk != near {
+            out.count("gi_paths_where_matched_path_or_any_parents_differs_from_the_nearest_walk_(empty_path_quirk)", 1);
+        }
+        if near != r {
+            out.count("gi_paths_where_nearest_walk_differs_from_gitignore_(negation_below_ignored_dir)", 1);
         }
         if r {
             any_true = true;
@@ -261,7 +268,7 @@ fn run_gi(it: &GiItem, out: &mut Buf) {
                 any_parent = true;
             }
         }
-        exp.push((code, r));
+        exp.push((code, r, near));
     }
     out.count("gi_paths", it.paths.len());
     if any_parent {
@@ -271,11 +278,70 @@ fn run_gi(it: &GiItem, out: &mut Buf) {
         g_list(it.lines.iter().map(|l| g_str(l))),
         g_list(it.paths.iter().map(|(p, d)| g_tuple(&[g_path(p), g_bool(*d)]))),
     ]);
-    let expg = g_list(exp.iter().map(|(c, b)| format!("({},{})", c, g_bool(*b))));
-    let sample = json!({"input":{"kind":"gi","lines":it.lines,"paths":it.paths}, "ignore_crate_says":exp});
+    let expg = g_list(exp.iter().map(|(c, b, n)| format!("({},{},{})", c, g_bool(*b), g_bool(*n))));
+    let sample = json!({"input":{"kind":"gi","lines":it.lines,"paths":it.paths}, "crate_decision_gitignore_nearest":exp});
     // the hypothesis "the reference implementation agrees with the specification" is evaluated in Coq
     // (a mismatch of group gi is reported as a broken correspondence)
     out.case("gi", it.cls, any_true, args, expg, sample);
+}
+
+// ------------------------------------------------------------------ (git) spec vs git itself
+/// `git check-ignore --no-index` in a scratch repository whose .gitignore holds the lines; every path is
+/// materialised (file or directory) on its own, asked about, and removed again.
+fn run_git(scratch: &Path, idx: usize, it: &GiItem, out: &mut Buf) {
+    let root = scratch.join(format!("g{}", idx));
+    let _ = std::fs::remove_dir_all(&root);
+    if std::fs::create_dir_all(&root).is_err() {
+        return;
+    }
+    let git = |args: &[&str]| {
+        Command::new("git")
+            .current_dir(&root)
+            .env("GIT_CONFIG_GLOBAL", "/dev/null")
+            .env("GIT_CONFIG_NOSYSTEM", "1")
+            .env("HOME", &root)
+            .args(args)
+            .stdin(Stdio::null())
+            .stdout(Stdio::null())
+            .stderr(Stdio::null())
+            .status()
+            .ok()
+            .and_then(|s| s.code())
+    };
+    if git(&["init", "-q", "."]) != Some(0) {
+        out.count("git_not_available", 1);
+        let _ = std::fs::remove_dir_all(&root);
+        return;
+    }
+    let _ = std::fs::write(root.join(".gitignore"), it.lines.join("\n") + "\n");
+    let mut exp = vec![];
+    for (p, d) in &it.paths {
+        let full = root.join(p.join("/"));
+        let made = if *d { std::fs::create_dir_all(&full).is_ok() } else { full.parent().map(|x| std::fs::create_dir_all(x).is_ok()).unwrap_or(false) && std::fs::write(&full, "x").is_ok() };
+        let joined = p.join("/");
+        let r = if made { git(&["check-ignore", "-q", "--no-index", &joined]) } else { None };
+        let _ = std::fs::remove_dir_all(root.join(&p[0]));
+        let _ = std::fs::remove_file(root.join(&p[0]));
+        match r {
+            Some(0) => exp.push(true),
+            Some(1) => exp.push(false),
+            _ => {
+                out.count("git_query_failed", 1);
+                let _ = std::fs::remove_dir_all(&root);
+                return;
+            }
+        }
+    }
+    let _ = std::fs::remove_dir_all(&root);
+    out.count("git_paths", it.paths.len());
+    let args = g_tuple(&[
+        g_list(it.lines.iter().map(|l| g_str(l))),
+        g_list(it.paths.iter().map(|(p, d)| g_tuple(&[g_path(p), g_bool(*d)]))),
+    ]);
+    let any_true = exp.iter().any(|b| *b);
+    let expg = g_list(exp.iter().map(|b| g_bool(*b)));
+    let sample = json!({"input":{"kind":"git","lines":it.lines,"paths":it.paths}, "git_check_ignore_says":exp});
+    out.case("git", it.cls, any_true, args, expg, sample);
 }
 
 // ------------------------------------------------------------------ (pipe) real binary
@@ -562,6 +628,7 @@ fn parse_tree_case(v: &Value) -> TreeCase {
 
 enum Item {
     Gi(GiItem),
+    Git(usize, GiItem),
     Pipe(usize, TreeCase),
 }
 
@@ -580,13 +647,14 @@ pub fn main(args: &Args) {
     if let Some(path) = args.flag("--replay-input") {
         let v: Value = serde_json::from_str(&std::fs::read_to_string(path).unwrap()).unwrap();
         let v = if v.get("input").is_some() { v["input"].clone() } else { v };
-        if v["kind"] == "gi" {
+        if v["kind"] == "gi" || v["kind"] == "git" {
             let strs = |x: &Value| -> Vec<String> { x.as_array().map(|a| a.iter().map(|s| s.as_str().unwrap_or("").to_string()).collect()).unwrap_or_default() };
-            items.push(Item::Gi(GiItem {
+            let g = GiItem {
                 lines: strs(&v["lines"]),
                 paths: v["paths"].as_array().map(|a| a.iter().map(|e| (strs(&e[0]), e[1].as_bool().unwrap_or(false))).collect()).unwrap_or_default(),
                 cls: "replay",
-            }));
+            };
+            items.push(if v["kind"] == "git" { Item::Git(0, g) } else { Item::Gi(g) });
         } else {
             items.push(Item::Pipe(0, parse_tree_case(&v)));
         }
@@ -609,11 +677,22 @@ pub fn main(args: &Args) {
             cls: "regression",
         }));
 
+        items.push(Item::Git(
+            1_000_000,
+            GiItem {
+                lines: vec![s("temp/"), s("!b.sql"), s("*.hql")],
+                paths: vec![(p("temp/b.sql"), false), (p("sub/temp/b.sql"), false), (p("b.sql"), false), (p("a.sql"), false), (p("temp"), true), (p("temp"), false), (p("sub/x.hql"), false)],
+                cls: "regression",
+            },
+        ));
         let (n_gi, n_pipe) = if args.thorough() { (20000, 6000) } else { (2500, 700) };
         for _ in 0..n_gi {
             let lines = gen_lines(&mut rng);
             let np = rng.range(3, 8);
-            let paths = (0..np).map(|_| gen_path(&mut rng)).collect();
+            let paths: Vec<(Vec<String>, bool)> = (0..np).map(|_| gen_path(&mut rng)).collect();
+            if items.len() % 4 == 0 {
+                items.push(Item::Git(items.len(), GiItem { lines: lines.clone(), paths: paths.clone(), cls: "random-patterns" }));
+            }
             items.push(Item::Gi(GiItem { lines, paths, cls: "random-patterns" }));
         }
         for _ in 0..n_pipe {
@@ -629,6 +708,7 @@ pub fn main(args: &Args) {
     }
     par_run(&mut out, &items, || (), |_, it, buf| match it {
         Item::Gi(g) => run_gi(g, buf),
+        Item::Git(i, g) => run_git(&env.scratch, *i, g, buf),
         Item::Pipe(i, c) => run_pipe(&env, *i, c, buf),
     });
     let _ = std::fs::remove_dir_all(&scratch);
